@@ -197,6 +197,7 @@ def require_close(a, b, tol, what, rec=None, atol=0.0, key=None, **sig):
     import numpy as np
     a = np.asarray(a, dtype=float)
     b = np.asarray(b, dtype=float)
+    atol = max(atol, 1e-290)          # differences in the subnormal range (where doubles lose their precision) are never judged
     if a.shape != b.shape:
         raise Violation('%s: shape %s != expected %s' % (what, a.shape, b.shape), **sig)
     if a.size == 0:
@@ -371,3 +372,14 @@ def write_replay(prop, relname, failure, seed):
         json.dump(dict(property=prop, relation=relname, seed=seed, message=failure['msg'],
                        sig=failure.get('sig', {}), case=failure['case']), f, indent=1, default=str)
     return os.path.relpath(p, VERIF)
+
+
+def as_container(values, selector):
+    """the same sequence of integers as a list, a tuple or an ndarray, chosen by the integer selector (argument-form axis)"""
+    import numpy as np
+    k = selector % 3
+    if k == 0:
+        return list(values)
+    if k == 1:
+        return tuple(values)
+    return np.array(list(values))
